@@ -60,7 +60,9 @@ class JsonDB(object):
 
     def __init__(self, name, codec, *, module_name=None):
         """Open/create a DB file"""
-        self.name = name
+        # absolute: the file is opened again (by name) when the DB is
+        # flushed, a task might have changed the working directory
+        self.name = os.path.abspath(name)
         self.codec = codec
         if not os.path.exists(self.name):
             self._db = {}
@@ -149,7 +151,9 @@ class DbmDB(object):
 
     def __init__(self, name, codec, *, module_name=None):
         """Open/create a DB file"""
-        self.name = name
+        # absolute: some dbm implementations open the files again (by name)
+        # on write, a task might have changed the working directory
+        self.name = os.path.abspath(name)
         self.codec = codec
         self.module = get_dbm_module(module_name)
         try:
